@@ -30,6 +30,7 @@ def agOp? (w : List String) : Option (AG.Op Int) :=
   | "p" :: vs => (vs.mapM String.toInt?).map AG.Op.setConsts
   | ["o"] => some .observe
   | ["f", k] => (OpsHof.key? k).map AG.Op.setFitness
+  | ["z"] => some .resetFlag
   | _ => none
 
 def handle : List String → Option String
